@@ -763,6 +763,9 @@ O(id='oer_fetch_quantity', props=['C03', 'C04', 'C15', 'C19'], kind='width', ent
   harness='harness/h_oer_quantity.c', units=[SK + 'constr_SET_OF_oer.c', SK + 'oer_support.c'], link=[SK + 'oer_support.c'], include=['contracts/constr_SET_OF_oer.h'], backends=['sat', 'cvc5'],
   unwind=14, bound='loops bounded by the input: every input of at most 12 octets in an exact-size heap buffer (unwind 14, unwinding assertions)', min_props=30, timeout=600)
 
+O(id='_edge_compare.contract', props=['C09'], kind='width', entry='h_edge_compare_contract', enforce=['_edge_compare'], functions=['_edge_compare'], include=['contracts/crange_contracts.h'],
+  backends=['sat', 'cvc5'], unwind=2, bound='loop-free; every pair of edges, 128-bit values', min_props=5, timeout=300, **CR)
+
 for _o in OBLIGATIONS:
     if _o.get('enforce') and _o.get('kind') in ('enforce', 'width') and _o.get('tier') == 'quick' and 'C19' not in _o['props']:
         _o['props'] = _o['props'] + ['C19']
